@@ -16,6 +16,7 @@ import (
 	"go/parser"
 	"go/token"
 	"os"
+	"os/exec"
 	"path/filepath"
 	"sort"
 	"strings"
@@ -829,7 +830,7 @@ func genC12(outDir string) (err error) {
 	sb.WriteString("-- GENERATED by /verif/go/cmd/c12 (gen.go) from /repo/core/protocol_version_processor.go.\n")
 	sb.WriteString("-- Do not edit: this file is deleted and regenerated from /repo's working tree on every check run;\n")
 	sb.WriteString("-- the committed copy is a snapshot for readers.\n")
-	sb.WriteString("import YouVerif.C12.Prelude\n\nnamespace YouVerif.C12.Gen\nopen YouVerif.C12\n\n")
+	sb.WriteString("import YouVerif.C12.Prelude\nset_option linter.unusedVariables false\n\nnamespace YouVerif.C12.Gen\nopen YouVerif.C12\n\n")
 	p, err := t.function("ProcessYouVersionState", "process")
 	if err != nil {
 		return err
@@ -859,5 +860,27 @@ func genC12(outDir string) (err error) {
 	if outDir == "" {
 		outDir = "/verif/lean/YouVerif/C12"
 	}
-	return os.WriteFile(filepath.Join(outDir, "Gen.lean"), []byte(sb.String()), 0o644)
+	if err := os.WriteFile(filepath.Join(outDir, "Gen.lean"), []byte(sb.String()), 0o644); err != nil {
+		return err
+	}
+	return genConsts(outDir)
+}
+
+// genConsts dumps the upgrade parameters of every shipped network table. params.InitNetworkId can be
+// called once per process, so the harness binary re-executes itself once per network id.
+func genConsts(outDir string) error {
+	var sb strings.Builder
+	sb.WriteString("-- GENERATED by /verif/go/cmd/c12 (gen.go) from params.Versions of the linked go-youchain (one process per network id).\n")
+	sb.WriteString("-- Do not edit; regenerated on every check run.\n")
+	sb.WriteString("import YouVerif.C12.Prelude\n\nnamespace YouVerif.C12.Gen\nopen YouVerif.C12\n\n")
+	nets := [][2]string{{"mainnet", "1"}, {"testnet", "2"}, {"testcase", "99"}}
+	for _, n := range nets {
+		out, err := exec.Command(os.Args[0], "dumpparams", n[1]).Output()
+		if err != nil {
+			return fmt.Errorf("dumpparams %s: %v", n[0], err)
+		}
+		fmt.Fprintf(&sb, "/-- `params.Versions` after `InitNetworkId(%s)`: (version, upgrade parameters). -/\ndef %sTable : List (Nat × VParams) := [\n%s]\n\n", n[1], n[0], strings.TrimRight(string(out), ",\n")+"\n")
+	}
+	sb.WriteString("def shippedTables : List (List (Nat × VParams)) := [mainnetTable, testnetTable, testcaseTable]\n\nend YouVerif.C12.Gen\n")
+	return os.WriteFile(filepath.Join(outDir, "GenConsts.lean"), []byte(sb.String()), 0o644)
 }
